@@ -102,6 +102,9 @@ def closed_by_a_subscriber_mid_chunk(ctx: Ctx) -> None:
 
 
 def shard(ctx: Ctx) -> None:
+    from vf.sim import device as _device_fw  # noqa: PLC0415
+
+    _device_fw.ROTATE_FIRMWARE = True    # the firmware flavour of default devices rotates (hello without a name, API 1.2 / 1.8 / 1.12, deep sleep)
     closed_by_a_subscriber_mid_chunk(ctx)
     sweep.standard_sweep(ctx, PROP)
     sweep.same_turn_pairs_sweep(ctx, PROP)
